@@ -262,6 +262,25 @@ fn built(sc: &Scratch, name: &str, c: mpqx::Config) -> Seed {
     s
 }
 
+/// an archive with `n` small files (names in several directories)
+fn built_many(sc: &Scratch, name: &str, c: mpqx::Config, n: usize) -> Seed {
+    let path = sc.path("seed.mpq");
+    let _ = std::fs::remove_file(&path);
+    let mut b = c.builder();
+    for (nm, d) in NAMES.iter().zip(contents()) {
+        b = c.add(b, nm, d);
+    }
+    for k in 0..n.saturating_sub(NAMES.len()) {
+        let nm = format!("{}File{:03}.{}", ["", "Dir\\", "Data\\Sub\\"][k % 3], k, ["txt", "blp", "m2"][k % 3]);
+        b = c.add(b, &nm, gen::content("period251", 20 + 13 * k, 512, k as u64));
+    }
+    b.build(&path).unwrap_or_else(|e| panic!("ArchiveBuilder {name}: {e}"));
+    let bytes = std::fs::read(&path).expect("read built archive");
+    let mut s = Seed { fmt: "mpq".into(), name: name.into(), bytes, ..Default::default() };
+    mpq_map(&mut s);
+    s
+}
+
 fn md5(d: &[u8]) -> [u8; 16] {
     let mut h = Md5::new();
     h.update(d);
@@ -372,6 +391,58 @@ impl Format for Mpq {
             built(&sc, "v4_zlib_sectored_crc_attrs_full", cfg(3, 0, 1, 0, true, 2, true, false)),
             built(&sc, "v4_pkware_compressed_tables", cfg(3, 0, 5, 0, false, 0, true, true)),
         ];
+        if crate::thorough() {
+            // further builder configurations (codecs, table compression, crypto x version), an archive with many
+            // entries, and archives nested behind a user-data header or embedded at a 512-byte boundary
+            // a configuration the builder refuses yields no seed
+            let tryb = |f: &dyn Fn() -> Seed| std::panic::catch_unwind(std::panic::AssertUnwindSafe(f)).ok();
+            let mut more: Vec<Seed> = [
+                tryb(&|| built(&sc, "v1_pkware_shift0", cfg(0, 0, 5, 0, false, 0, true, false))),
+                tryb(&|| built(&sc, "v1_adpcm_mono_zlib_crc", cfg(0, 0, 6, 0, true, 0, true, false))),
+                tryb(&|| built(&sc, "v2_adpcm_stereo_zlib_encrypted_nolistfile", cfg(1, 0, 7, 1, false, 0, false, false))),
+                tryb(&|| built(&sc, "v3_bzip2_fixkey_attrs_crc32", cfg(2, 1, 2, 2, false, 1, true, false))),
+                tryb(&|| built(&sc, "v3_sparse_crc_nolistfile", cfg(2, 0, 4, 0, true, 0, false, false))),
+                tryb(&|| built(&sc, "v4_lzma_encrypted_fixkey_compressed_tables", cfg(3, 0, 3, 2, false, 2, true, true))),
+                tryb(&|| built(&sc, "v4_bzip2_shift1_nolistfile_attrs_crc32", cfg(3, 1, 2, 0, true, 1, false, false))),
+                tryb(&|| built_many(&sc, "v1_zlib_40_files", cfg(0, 0, 1, 0, false, 2, true, false), 40)),
+                tryb(&|| built_many(&sc, "v4_zlib_40_files", cfg(3, 0, 1, 0, true, 2, true, false), 40)),
+            ]
+            .into_iter()
+            .flatten()
+            .collect();
+            for (name, c) in [
+                ("nested_userdata_v2_bzip2_encrypted", cfg(1, 1, 2, 1, false, 0, true, false)),
+                ("nested_userdata_v3_zlib_crc_attrs", cfg(2, 0, 1, 0, true, 2, true, false)),
+                ("nested_userdata_v4_zlib_crc_attrs", cfg(3, 0, 1, 0, true, 2, true, false)),
+            ] {
+                let inner = built(&sc, name, c);
+                // user-data header: magic, user data size, offset of the MPQ header, size of this header; then user data
+                let mut b = b"MPQ\x1b".to_vec();
+                b.extend(64u32.to_le_bytes());
+                b.extend(1024u32.to_le_bytes());
+                b.extend(16u32.to_le_bytes());
+                b.extend((0..64u8).map(|k| k.wrapping_mul(37)));
+                b.resize(1024, 0);
+                b.extend_from_slice(&inner.bytes);
+                let mut s = Seed { fmt: "mpq".into(), name: name.into(), bytes: b, ..Default::default() };
+                mpq_map(&mut s);
+                more.push(s);
+            }
+            for (name, c, at) in [("embedded_at_0x200_v1_zlib", cfg(0, 0, 1, 0, false, 0, true, false), 512usize), ("embedded_at_0x600_v4_store", cfg(3, 3, 0, 0, false, 0, true, false), 1536)] {
+                let inner = built(&sc, name, c);
+                // leading bytes that are no MPQ header (an executable stub in real files)
+                let mut b: Vec<u8> = (0..at).map(|k| (k as u8).wrapping_mul(29).wrapping_add(7)).collect();
+                b[..2].copy_from_slice(b"MZ");
+                b.extend_from_slice(&inner.bytes);
+                let mut s = Seed { fmt: "mpq".into(), name: name.into(), bytes: b, ..Default::default() };
+                mpq_map(&mut s);
+                more.push(s);
+            }
+            for mut s in more {
+                s.tier2 = true;
+                v.push(s);
+            }
+        }
         let c = contents();
         let wf = |n: &str, d: &[u8], method: u8, encrypt: bool, fix_key: bool, single_unit: bool| WFile { name: n.as_bytes().to_vec(), data: d.to_vec(), method, encrypt, fix_key, single_unit, raw_flags: 0, in_listfile: true };
         v.push(reference(
@@ -454,6 +525,41 @@ impl Format for Mpq {
                 }
             });
             let _ = rec.leaf("Archive::verify_signature", || a.verify_signature());
+            if crate::thorough() {
+                // the lookup paths over the parsed tables (bit-unpacking of HET/BET entries, hash probing)
+                rec.leaf_plain("HetTable::find_file / BetTable::get_file_info / HashTable::find_file", || {
+                    let mut n = 0u32;
+                    if let Some(h) = a.het_table() {
+                        for nm in names.iter().take(6) {
+                            n += h.find_file(nm).is_some() as u32;
+                            n += h.find_file_with_collision_info(nm).1.len() as u32;
+                        }
+                    }
+                    if let Some(b) = a.bet_table() {
+                        for i in (0..10).chain([0x7FFF_FFFF, 0xFFFF_FFFF]) {
+                            n += b.get_file_info(i).is_some() as u32;
+                            n += b.get_file_hash(i).is_some() as u32;
+                        }
+                        n += b.verify_file_hash(0, &names[0]) as u32;
+                    }
+                    if let Some(h) = a.hash_table() {
+                        for nm in names.iter().take(6) {
+                            n += h.find_file(nm, 0).is_some() as u32;
+                        }
+                    }
+                    if let Some(h) = a.hi_block_table() {
+                        for i in 0..10 {
+                            n += h.get_file_pos_high(i) as u32;
+                        }
+                    }
+                    n
+                });
+            }
+        }
+        if crate::thorough() {
+            // header location and header parse on a reader
+            let _ = rec.leaf("header::find_header", || wow_mpq::header::find_header(&mut std::io::Cursor::new(input)));
+            let _ = rec.leaf("MpqHeader::read", || wow_mpq::MpqHeader::read(&mut std::io::Cursor::new(input)));
         }
         // tables loaded on demand
         if let Some(mut a) = rec.call("OpenOptions::open[load_tables=false]", || wow_mpq::OpenOptions::new().load_tables(false).open(&path)) {
@@ -472,6 +578,12 @@ impl Format for Mpq {
                 for n in names.iter().take(5) {
                     let _ = rec.leaf("PatchChain::read_file", || chain.read_file(n));
                 }
+                if crate::thorough() {
+                    rec.leaf_plain("PatchChain::extract_files / get_chain_info", || {
+                        let nm: Vec<&str> = names.iter().take(5).map(|s| s.as_str()).collect();
+                        chain.extract_files(&nm).len() + chain.get_chain_info().len()
+                    });
+                }
             }
         }
         // the modification API parses the archive on open as well
@@ -480,7 +592,28 @@ impl Format for Mpq {
             for n in names.iter().take(2) {
                 let _ = rec.leaf("MutableArchive::read_file", || m.read_file(n));
             }
+            if crate::thorough() {
+                for n in names.iter().take(2) {
+                    let _ = rec.leaf("MutableArchive::find_file", || m.find_file(n));
+                }
+                let _ = rec.leaf("MutableArchive::load_attributes", || m.load_attributes());
+                let _ = rec.leaf("MutableArchive::verify_signature", || m.verify_signature());
+            }
             rec.leaf_plain("MutableArchive::drop", || drop(m));
+        }
+        // thorough, 1-deviation classes: the whole-archive consumers (each opens the archive itself)
+        if crate::thorough() && !crate::LIGHT.load(std::sync::atomic::Ordering::Relaxed) {
+            if let Some(pa) = rec.call("ParallelArchive::open", || wow_mpq::single_archive_parallel::ParallelArchive::open(&path)) {
+                let nm: Vec<&str> = names.iter().take(4).map(|s| s.as_str()).collect();
+                let _ = rec.leaf("ParallelArchive::extract_files_parallel", || pa.extract_files_parallel(&nm));
+                let _ = rec.leaf("ParallelArchive::read_file_with_new_handle", || pa.read_file_with_new_handle(nm[0]));
+            }
+            let _ = rec.leaf("rebuild_archive[list_only]", || {
+                let opt = wow_mpq::RebuildOptions { list_only: true, ..Default::default() };
+                wow_mpq::rebuild_archive(&path, &scratch.join("rebuilt.mpq"), opt, None)
+            });
+            let _ = std::fs::remove_file(scratch.join("rebuilt.mpq"));
+            let _ = rec.leaf("compare_archives[with itself, content]", || wow_mpq::compare_archives(&path, &path, true, true, false, false, None));
         }
         let _ = std::fs::remove_file(&path);
     }
@@ -508,10 +641,28 @@ impl Format for Ptch {
             s.extra = vec![base];
             v.push(s);
         }
+        if crate::thorough() {
+            // larger payloads (RLE runs of every length class, multi-kilobyte diff / extra blocks)
+            let big = gen::content("half", 4000, 512, 11);
+            let mut big2 = big.clone();
+            for i in (0..big2.len()).step_by(5) {
+                big2[i] = big2[i].wrapping_mul(3).wrapping_add(1);
+            }
+            big2.extend(gen::content("period251", 700, 512, 12));
+            for (name, kind, base, new) in [("bsd0_4000_to_4700", "BSD0", big.clone(), big2.clone()), ("copy_4000_to_4700", "COPY", big.clone(), big2.clone()), ("bsd0_4700_to_300", "BSD0", big2, base_file())] {
+                let mut s = flat_seed("ptch", name, ptch(kind, &base, &new), 0, 64 + 48);
+                s.extra = vec![base];
+                s.tier2 = true;
+                v.push(s);
+            }
+        }
         v
     }
     fn run(&self, seed: &Seed, input: &[u8], rec: &mut Recorder, _scratch: &Path) {
         let base = &seed.extra[0];
+        if crate::thorough() {
+            let _ = rec.leaf("PatchHeader::parse", || wow_mpq::patch::PatchHeader::parse(&mut std::io::Cursor::new(input)));
+        }
         if let Some(p) = rec.call("PatchFile::parse", || PatchFile::parse(input)) {
             let _ = rec.leaf("PatchFile::verify_base", || p.verify_base(base));
             if let Some(out) = rec.call("patch::apply_patch", || apply_patch(&p, base)) {
@@ -557,18 +708,72 @@ impl Format for Codec {
             } else {
                 gen::content("sparse", 1200, 512, m as u64)
             };
-            let Ok(c) = wow_mpq::compress(&data, m) else { continue };
+            let c = match wow_mpq::compress(&data, m) {
+                Ok(c) => c,
+                Err(e) => {
+                    if std::env::var("C05_VERBOSE").is_ok() {
+                        eprintln!("codec seed {name}: compress refused: {e}");
+                    }
+                    continue;
+                }
+            };
             if c.len() >= data.len() || c.first() != Some(&m) {
                 // the codec did not shrink the input: no method byte, nothing to decode
+                if std::env::var("C05_VERBOSE").is_ok() {
+                    eprintln!("codec seed {name}: {} -> {} bytes, first byte {:?}", data.len(), c.len(), c.first());
+                }
                 continue;
             }
             // accept only streams the decoder takes back
-            if wow_mpq::decompress(&c[1..], c[0], data.len()).is_err() {
+            if let Err(e) = wow_mpq::decompress(&c[1..], c[0], data.len()) {
+                if std::env::var("C05_VERBOSE").is_ok() {
+                    eprintln!("codec seed {name}: decompress refused: {e}");
+                }
                 continue;
             }
             let mut s = flat_seed("codec", name, c, data.len() as u32, 32);
             s.extra = vec![data];
             v.push(s);
+        }
+        if crate::thorough() {
+            // codecs whose primary seed is missing (input did not shrink, no single-call compressor): other
+            // contents, and method chains composed from the crate's single-method compressors
+            let pcm: Vec<u8> = (0..600u32).flat_map(|i| (((i * 97) % 2000) as i16 - 1000).to_le_bytes()).collect();
+            let rep = gen::content("period251", 1500, 512, 5);
+            let big = gen::content("half", 6_000, 512, 6);
+            let single = |data: &[u8], m: u8| -> Option<Vec<u8>> {
+                let c = wow_mpq::compress(data, m).ok()?;
+                (c.len() < data.len() && c.first() == Some(&m)).then_some(c)
+            };
+            let chain = |data: &[u8], first: u8, second: u8| -> Option<Vec<u8>> {
+                // stored = second(first(data)); the decoder undoes `second` first
+                let a = single(data, first)?;
+                let b = single(&a[1..], second)?;
+                let mut out = vec![first | second];
+                out.extend_from_slice(&b[1..]);
+                Some(out)
+            };
+            let more: Vec<(&str, Vec<u8>, Option<Vec<u8>>)> = vec![
+                ("pkware_repetitive", rep.clone(), single(&rep, 0x08)),
+                ("adpcm_stereo+zlib", pcm.clone(), single(&pcm, 0x82)),
+                ("zlib_6k", big.clone(), single(&big, 0x02)),
+                ("bzip2_6k", big.clone(), single(&big, 0x10)),
+                ("lzma_6k", big.clone(), single(&big, 0x12)),
+                ("sparse+zlib_composed", rep.clone(), chain(&gen::content("sparse", 3000, 512, 7), 0x20, 0x02).or_else(|| chain(&rep, 0x20, 0x02))),
+                ("sparse+bzip2_composed", rep.clone(), chain(&gen::content("sparse", 3000, 512, 7), 0x20, 0x10)),
+            ];
+            for (name, data, c) in more {
+                let Some(c) = c else { continue };
+                // the data a composed chain was made from
+                let data = if name.ends_with("_composed") && chain(&gen::content("sparse", 3000, 512, 7), 0x20, if name.contains("zlib") { 0x02 } else { 0x10 }).as_ref() == Some(&c) { gen::content("sparse", 3000, 512, 7) } else { data };
+                if wow_mpq::decompress(&c[1..], c[0], data.len()).is_err() {
+                    continue;
+                }
+                let mut s = flat_seed("codec", name, c, data.len() as u32, 32);
+                s.extra = vec![data];
+                s.tier2 = true;
+                v.push(s);
+            }
         }
         v
     }
@@ -581,5 +786,12 @@ impl Format for Codec {
         let _ = rec.leaf("compression::decompress[expected = seed size]", || wow_mpq::decompress(body, m, seed.aux as usize));
         let _ = rec.leaf("compression::decompress[expected = 2^31-1]", || wow_mpq::decompress(body, m, 0x7FFF_FFFF));
         let _ = rec.leaf("compression::decompress[expected = 0]", || wow_mpq::decompress(body, m, 0));
+        if crate::thorough() {
+            let _ = rec.leaf("compression::decompress[expected = seed size - 1]", || wow_mpq::decompress(body, m, (seed.aux as usize).saturating_sub(1)));
+            let _ = rec.leaf("compression::decompress[expected = 2 x seed size]", || wow_mpq::decompress(body, m, seed.aux as usize * 2));
+            // the RLE codec of the patch files, with and without its 4-byte size header
+            let _ = rec.leaf("compression::rle::decompress[skip_header]", || wow_mpq::compression::rle::decompress(input, seed.aux as usize, true));
+            let _ = rec.leaf("compression::rle::decompress", || wow_mpq::compression::rle::decompress(input, seed.aux as usize, false));
+        }
     }
 }
